@@ -103,3 +103,12 @@ pub use qbice_stable_type_id as stable_type_id;
 pub use qbice_stable_type_id::Identifiable;
 pub use qbice_storage as storage;
 pub use query::{ExecutionStyle, Query};
+
+/// Handles on crate-private items for the external verification harness.
+///
+/// Only compiled with the `verif_hooks` feature; not part of the public API.
+#[cfg(feature = "verif_hooks")]
+#[doc(hidden)]
+pub mod verif_hooks {
+    pub use crate::engine::computation_graph::verif_hooks::BackwardEdgeSet;
+}
